@@ -1,7 +1,6 @@
 package props
 
 import (
-	"verifh/ref/rpar2"
 	"bytes"
 	"fmt"
 	"io/ioutil"
@@ -10,6 +9,7 @@ import (
 	"regexp"
 	"sort"
 	"strings"
+	"verifh/ref/rpar2"
 
 	"github.com/akalin/gopar/par2"
 
@@ -23,14 +23,14 @@ import (
 type p2Case struct {
 	Cfg         scen.P2Config `json:"cfg"`
 	Dmg         []scen.Dmg    `json:"dmg"`
-	G           int           `json:"g,omitempty"`      // goroutines for verify/repair
+	G           int           `json:"g,omitempty"` // goroutines for verify/repair
 	DoubleCheck bool          `json:"dc,omitempty"`
-	Extra       []string      `json:"extra,omitempty"`  // unrelated files to drop beside the set (C02)
-	FailWrite   int           `json:"failwrite,omitempty"` // C02: the k-th write during Repair fails without effect (0 = none)
-	AutoPrune   bool          `json:"autoprune,omitempty"` // C16: delete recovery files so that exactly as many blocks remain as slices are unfindable
-	PriorGen    int           `json:"priorgen,omitempty"` // history inside the process: first Verify (1) or Repair (2) another generation of the same set (same names, lengths, first 16 KiB, hence the same file ids and set id; other content)
+	Extra       []string      `json:"extra,omitempty"`      // unrelated files to drop beside the set (C02)
+	FailWrite   int           `json:"failwrite,omitempty"`  // C02: the k-th write during Repair fails without effect (0 = none)
+	AutoPrune   bool          `json:"autoprune,omitempty"`  // C16: delete recovery files so that exactly as many blocks remain as slices are unfindable
+	PriorGen    int           `json:"priorgen,omitempty"`   // history inside the process: first Verify (1) or Repair (2) another generation of the same set (same names, lengths, first 16 KiB, hence the same file ids and set id; other content)
 	RecDamaged  bool          `json:"recdamaged,omitempty"` // C03: a recovery file was damaged (not as Create wrote it): Verify may refuse with an error, but a verdict must count exactly the blocks that are still intact
-	DiskTwin    bool          `json:"disktwin,omitempty"`  // additionally run the same directory through the exported API on a real directory and require the same observations
+	DiskTwin    bool          `json:"disktwin,omitempty"`   // additionally run the same directory through the exported API on a real directory and require the same observations
 }
 
 // clause selection
@@ -348,7 +348,9 @@ func diskTwinP2(s *scen.P2Set, start *envfs.FS, o *scen.P2Obs, c *p2Case, r *cor
 		r.Violate("disk-verify-panic:"+pi.Frame, pi.Value+"\n"+pi.Stack)
 		return
 	}
-	if pi := core.Catch(func() { rres, rerr = par2.Repair(index, par2.RepairOptions{NumGoroutines: g, DoubleCheck: c.DoubleCheck}) }); pi != nil {
+	if pi := core.Catch(func() {
+		rres, rerr = par2.Repair(index, par2.RepairOptions{NumGoroutines: g, DoubleCheck: c.DoubleCheck})
+	}); pi != nil {
 		r.Violate("disk-repair-panic:"+pi.Frame, pi.Value+"\n"+pi.Stack)
 		return
 	}
